@@ -272,6 +272,10 @@ class CacheFn:
                 return "(.shl %s %s)" % (self.expr(a, "u64"), self.expr(b))
             self.refuse("binary operator %s at type %s" % (op, qtype(n)), n)
         if k == "UnaryOperator" and n.get("opcode") == "!":
+            c = strip(kids(n)[0])
+            if c.get("kind") == "ImplicitCastExpr" and c.get("castKind") == "IntegralToBoolean" \
+                    and width(qtype(strip(kids(c)[0]))) == "u64":
+                return "(.not %s)" % self.expr(kids(c)[0], "u64")      # `!word`: Lang's `.not` on a 64-bit word
             return "(.not %s)" % self.expr(kids(n)[0])
         self.refuse("expression kind %s" % k, n)
 
@@ -428,6 +432,270 @@ class CacheFn:
         return ", ".join("%d = %s" % (i, n) for i, n in enumerate(self.names))
 
 
+# ---- cache::save / cache::load: statements with stream I/O (Vita.C04.IO.IStmt) -----------------
+class CacheIOFn(CacheFn):
+    """cache::save(std::ostream &) const / cache::load(std::istream &).  Pure statements go through
+    CacheFn (wrapped in `.pure`); the I/O shapes accepted are listed in IO.lean, anything else is refused.
+    `hash_t::empty()` is inlined from its own body (`empty_body`: a function obj-term -> Expr)."""
+
+    def __init__(self, name, decl, const_method, empty_body):
+        super().__init__(name, decl, const_method)
+        ps = params_of(decl)
+        if len(ps) != 1 or not re.search(r"(istream|ostream)", ps[0].get("type", {}).get("qualType", "")):
+            self.refuse("expected a single stream parameter")
+        self.stream = ps[0].get("id")
+        self.is_in = "istream" in ps[0].get("type", {}).get("qualType", "")
+        self.empty_body = empty_body
+        self.uninit = set()          # scalar locals declared without an initialiser (set by `>>`)
+
+    def is_stream(self, n):
+        n = strip(n)
+        return n.get("kind") == "DeclRefExpr" and n.get("referencedDecl", {}).get("id") == self.stream
+
+    def mentions(self, n, decl_id):
+        return bool(X.find_all(n, lambda c: c.get("kind") == "DeclRefExpr" and c.get("referencedDecl", {}).get("id") == decl_id))
+
+    # expressions: hash_t::empty() on a slot's key is inlined
+    def expr(self, n, want=None):
+        if n.get("kind") == "CXXMemberCallExpr":
+            name, me = callee(n)
+            if name == "empty" and me.get("kind") == "MemberExpr" and len(kids(n)) == 1:
+                obj = kids(me)[0]
+                if is_type(strip(obj), *KEY_T):
+                    return self.empty_body(self.expr(obj))
+        if n.get("kind") == "DeclRefExpr" and n.get("referencedDecl", {}).get("id") == self.stream:
+            self.refuse("use of the stream outside the accepted I/O shapes", n)
+        return super().expr(n, want)
+
+    def iseq(self, xs):
+        """sequence of ('p', Stmt-term) / ('i', IStmt-term): consecutive pure statements share one `.pure`"""
+        out, run = [], []
+        for kind, t in xs:
+            if kind == "p":
+                if t != ".skip":
+                    run.append(t)
+            else:
+                if run:
+                    out.append("(.pure %s)" % self.seq(run))
+                    run = []
+                out.append(t)
+        if run:
+            out.append("(.pure %s)" % self.seq(run))
+        if not out:
+            return "(.pure .skip)"
+        r = out[-1]
+        for x in reversed(out[:-1]):
+            r = "(.seq %s %s)" % (x, r)
+        return r
+
+    def stream_test(self, cond):
+        """`!(in >> x)` -> ('read', x-local, kind) ; `!x.f.load(in)` -> ('load', x-local, field) ; else None"""
+        c = strip(cond)
+        inner = None
+        if c.get("kind") == "CXXOperatorCallExpr" and callee(c)[0] == "operator!":
+            inner = strip(kids(c)[1])
+        elif c.get("kind") == "UnaryOperator" and c.get("opcode") == "!":
+            inner = strip(kids(c)[0])
+            if inner.get("kind") == "CXXMemberCallExpr" and callee(inner)[0] == "operator bool":
+                inner = strip(kids(strip(kids(inner)[0]))[0])
+        if inner is None:
+            return None
+        while inner.get("kind") == "ImplicitCastExpr" and len(kids(inner)) == 1:
+            inner = strip(kids(inner)[0])
+        if inner.get("kind") == "CXXOperatorCallExpr" and callee(inner)[0] == "operator>>":
+            a = kids(inner)[1:]
+            if len(a) == 2 and self.is_stream(a[0]) and strip(a[1]).get("kind") == "DeclRefExpr":
+                if not self.is_in:
+                    self.refuse(">> in a function without an input stream", cond)
+                x = self.local(strip(a[1]))
+                w = width(qtype(strip(a[1])))
+                if w not in ("u32", "u64"):
+                    self.refuse(">> into a variable of type %s" % qtype(strip(a[1])), cond)
+                return ("read", x, ".u32" if w == "u32" else ".size")
+            self.refuse(">> that is not `in >> <local>`", cond)
+        if inner.get("kind") == "CXXMemberCallExpr" and callee(inner)[0] == "load":
+            me = callee(inner)[1]
+            obj = strip(kids(me)[0])
+            a = kids(inner)[1:]
+            if len(a) == 1 and self.is_stream(a[0]) and obj.get("kind") == "MemberExpr" and obj.get("name") in ("hash", "fitness"):
+                root = strip(kids(obj)[0])
+                if root.get("kind") == "DeclRefExpr" and is_type(root, *SLOT_T):
+                    return ("load", self.local(root), "." + FIELDS[obj.get("name")])
+            self.refuse("load() that is not `<local slot>.hash/fitness.load(in)`", cond)
+        return None
+
+    def out_chain(self, n):
+        """`out << a << ' ' << b` -> [terms written], None if n is not such a chain"""
+        n = strip(n)
+        if self.is_stream(n):
+            return []
+        if n.get("kind") == "CXXOperatorCallExpr" and callee(n)[0] == "operator<<":
+            a = kids(n)[1:]
+            if len(a) != 2:
+                return None
+            left = self.out_chain(a[0])
+            if left is None:
+                return None
+            r = strip(a[1])
+            while r.get("kind") == "ImplicitCastExpr" and r.get("castKind") in ("LValueToRValue", "NoOp"):
+                r = strip(kids(r)[0])
+            if r.get("kind") == "CharacterLiteral":
+                if int(r.get("value")) not in (32, 10):
+                    self.refuse("separator character %s written by save" % r.get("value"), n)
+                return left                                   # separators are not tokens
+            w = width(qtype(strip(a[1])))
+            if w not in ("u32", "u64"):
+                self.refuse("<< of a value of type %s" % qtype(strip(a[1])), n)
+            return left + ["(.write %s)" % self.expr(a[1], w)]
+        return None
+
+    def istmts(self, s, loop=None):
+        """-> list of ('p'|'i', term).  loop: None | ('count', i-decl-id) | ('slots', local)"""
+        k = s.get("kind")
+        if k == "CompoundStmt":
+            out = []
+            for c in kids(s):
+                out += self.istmts(c, loop)
+            return out
+        if k == "NullStmt":
+            return []
+        if k in WRAP and len(kids(s)) == 1:
+            return self.istmts(kids(s)[0], loop)
+        if k == "DeclStmt":
+            vs = kids(s)
+            if len(vs) == 1 and vs[0].get("kind") == "VarDecl":
+                v = vs[0]
+                init = [c for c in kids(v) if c.get("kind") and c.get("kind") != "FullComment"]
+                t = v.get("type", {}).get("desugaredQualType", v.get("type", {}).get("qualType", ""))
+                if not init and width(t) in ("u32", "u64"):
+                    if loop is not None:
+                        self.refuse("uninitialised scalar declared inside a loop", s)
+                    x = self.new_local(v)
+                    self.uninit.add(x)
+                    return []
+            if loop is not None and loop[0] == "slots":
+                self.refuse("declaration inside a loop over table_", s)
+            return [("p", self.decl(s))]
+        if k == "ReturnStmt":
+            ks = kids(s)
+            if len(ks) == 1:
+                r = strip(ks[0])
+                if r.get("kind") == "CXXMemberCallExpr" and callee(r)[0] == "good":
+                    obj = strip(kids(callee(r)[1])[0])
+                    if self.is_stream(obj) and not self.is_in:
+                        if loop is not None:
+                            self.refuse("return inside a loop", s)
+                        return [("i", ".retGood")]
+                    self.refuse("good() on something else than the output stream", s)
+            if loop is not None:
+                self.refuse("return inside a loop (other than a failed read)", s)
+            return [("p", "(.ret %s)" % self.expr(ks[0]) if ks else ".retVoid")]
+        if k == "IfStmt":
+            if s.get("hasInit") or s.get("hasVar"):
+                self.refuse("if with an init-statement / condition variable", s)
+            inner = kids(s)
+            cond, then = inner[0], inner[1]
+            els = inner[2] if s.get("hasElse") and len(inner) > 2 else None
+            st = self.stream_test(cond)
+            if st is not None:
+                if els is not None:
+                    self.refuse("failed-read test with an else branch", s)
+                if loop is not None and loop[0] == "slots":
+                    self.refuse("read inside a loop over table_", s)
+                body = then
+                while body.get("kind") == "CompoundStmt" and len(kids(body)) == 1:
+                    body = kids(body)[0]
+                if body.get("kind") != "ReturnStmt" or len(kids(body)) != 1:
+                    self.refuse("a failed read must be followed by `return <value>;`", s)
+                fail = self.expr(kids(body)[0])
+                if st[0] == "read":
+                    return [("i", "(.readOr %d %s %s)" % (st[1], st[2], fail))]
+                return [("i", "(.loadFieldOr %d %s %s)" % (st[1], st[2], fail))]
+            ce = self.expr(cond)
+            t = self.iseq(self.istmts(then, loop))
+            e = self.iseq(self.istmts(els, loop)) if els is not None else "(.pure .skip)"
+            return [("i", "(.ite %s %s %s)" % (ce, t, e))]
+        if k == "UnaryOperator" and s.get("opcode") == "++":
+            tgt = strip(kids(s)[0])
+            if tgt.get("kind") == "DeclRefExpr" and width(qtype(tgt)) == "u64":
+                return [("i", "(.incr %d)" % self.local(tgt))]
+            self.refuse("++ on something that is not a std::size_t local", s)
+        if k == "CXXOperatorCallExpr" and callee(s)[0] == "operator<<":
+            ch = self.out_chain(s)
+            if ch is None or self.is_in:
+                self.refuse("<< that is not a chain on the output stream", s)
+            return [("i", c) for c in ch]
+        if k == "CXXMemberCallExpr" and callee(s)[0] == "save":
+            me = callee(s)[1]
+            obj = strip(kids(me)[0])
+            a = kids(s)[1:]
+            if len(a) == 1 and self.is_stream(a[0]) and not self.is_in and obj.get("kind") == "MemberExpr" \
+                    and obj.get("name") in ("hash", "fitness") and is_type(strip(kids(obj)[0]), *SLOT_T):
+                return [("i", "(.saveField %s .%s)" % (self.expr(kids(obj)[0]), FIELDS[obj.get("name")]))]
+            self.refuse("save() that is not `<slot>.hash/fitness.save(out)`", s)
+        if k == "ForStmt":
+            if loop is not None:
+                self.refuse("nested loop", s)
+            parts = s.get("inner", [])
+            if len(parts) != 5:
+                self.refuse("for statement with %d parts" % len(parts), s)
+            init, condvar, cond, inc, body = parts
+            if condvar.get("kind"):
+                self.refuse("for with a condition variable", s)
+            iv = kids(init)[0] if init.get("kind") == "DeclStmt" and len(kids(init)) == 1 else {}
+            i0 = [strip(c) for c in kids(iv) if c.get("kind") != "FullComment"] if iv.get("kind") == "VarDecl" else []
+            if len(i0) == 1 and i0[0].get("kind") == "ImplicitCastExpr":
+                i0 = [strip(kids(i0[0])[0])]
+            if len(i0) != 1 or i0[0].get("kind") != "IntegerLiteral" or int(i0[0].get("value")) != 0 \
+                    or width(qtype(iv)) != "u64":
+                self.refuse("for loop that does not start with a std::size_t counter at 0", s)
+            iid = iv.get("id")
+            c = strip(cond)
+            if c.get("kind") != "BinaryOperator" or c.get("opcode") != "<":
+                self.refuse("for loop whose condition is not `i < n`", s)
+            a, b = [strip(x) for x in kids(c)]
+            if a.get("kind") != "DeclRefExpr" or a.get("referencedDecl", {}).get("id") != iid \
+                    or b.get("kind") != "DeclRefExpr" or width(qtype(b)) != "u64":
+                self.refuse("for loop whose condition is not `i < n` with n a std::size_t local", s)
+            n_local = self.local(b)
+            n_id = b.get("referencedDecl", {}).get("id")
+            u = strip(inc)
+            if u.get("kind") != "UnaryOperator" or u.get("opcode") != "++" \
+                    or strip(kids(u)[0]).get("referencedDecl", {}).get("id") != iid:
+                self.refuse("for loop whose step is not ++i", s)
+            if self.mentions(body, iid):
+                self.refuse("the body of the counting loop mentions its counter", s)
+            ws = X.find_all(body, lambda q: (q.get("kind") in ("BinaryOperator", "CompoundAssignOperator") and q.get("opcode", "").endswith("=")
+                                             and q.get("opcode") not in ("==", "!=", "<=", ">=")
+                                             and self.mentions(kids(q)[0], n_id))
+                            or (q.get("kind") == "UnaryOperator" and q.get("opcode") in ("++", "--") and self.mentions(q, n_id))
+                            or (q.get("kind") == "CXXOperatorCallExpr" and callee(q)[0] == "operator>>" and self.mentions(q, n_id)))
+            if ws:
+                self.refuse("the body of the counting loop changes its bound", s)
+            return [("i", "(.forCount %d %s)" % (n_local, self.iseq(self.istmts(body, ("count", iid)))))]
+        if k == "CXXForRangeStmt":
+            if loop is not None:
+                self.refuse("nested loop", s)
+            decls = [c for c in kids(s) if c.get("kind") == "DeclStmt"]
+            rng = kids(kids(decls[0])[0])
+            if not rng or self.this_member(strip(rng[0])) != "table_":
+                self.refuse("range-for over something else than table_", s)
+            lv = kids(decls[-1])[0]
+            t = lv.get("type", {}).get("qualType", "")
+            if "&" in t and "const" not in t:
+                self.refuse("range-for over table_ with a mutable loop variable in save/load", s)
+            x = self.new_local(lv)
+            body = kids(s)[-1]
+            return [("i", "(.forSlots %d %s)" % (x, self.iseq(self.istmts(body, ("slots", x)))))]
+        # everything else: a pure statement of Lang
+        if loop is not None and loop[0] == "slots":
+            self.refuse("statement kind %s inside a read-only loop over table_" % k, s)
+        return [("p", self.stmt(s))]
+
+    def body(self, b):
+        return self.iseq(self.istmts(b))
+
+
 def find_out_of_line(docs, name, nparams=None, kind="CXXMethodDecl"):
     c = [d for d in docs if d.get("kind") == kind and d.get("name") == name and has_body(d)
          and (nparams is None or len(params_of(d)) == nparams)]
@@ -490,6 +758,26 @@ def cache_layer(dumps):
         d = find_out_of_line(docs, name, np)
         fn = CacheFn("cache::" + name, d, is_const_method(d))
         res[key] = (fn.stmt(body_of(d)), fn.comment(), "Stmt")
+    # ---- cache::save / cache::load (hash_t::empty() inlined from its own body)
+    em = [m for m in hm if m.get("name") == "empty" and not params_of(m)]
+    if len(em) != 1:
+        raise Refuse("hash_t::empty not found")
+    efn = CacheFn("hash_t::empty", em[0], True)
+    efn.ids = {"this": 0}
+    efn.names = ["*this"]
+    eb = kids(body_of(em[0]))
+    if len(eb) != 1 or eb[0].get("kind") != "ReturnStmt":
+        raise Refuse("hash_t::empty is not a single return statement")
+    empty_term = efn.expr(kids(eb[0])[0])
+
+    def empty_body(obj):
+        return empty_term.replace("(.var 0)", obj)
+    for key, name in (("save", "save"), ("load", "load")):
+        d = find_out_of_line(docs, name, 1)
+        fn = CacheIOFn("cache::" + name, d, is_const_method(d), empty_body)
+        if (name == "save") == fn.is_in:
+            raise Refuse("cache::%s takes the wrong kind of stream" % name)
+        res[key] = (fn.body(body_of(d)), fn.comment(), "IStmt")
     d = find_out_of_line(docs, "cache", 1, "CXXConstructorDecl")
     fn = CacheFn("cache::cache", d, False)
     got = {}
@@ -1416,15 +1704,17 @@ def render(res):
          "   evaluator_proxy.tcc, validation_strategy.h, gp/src/dss.cc, gp/src/holdout_validation.cc,",
          "   search.tcc, gp/src/search.tcc, evolution.tcc of the current working tree — do not edit. -/",
          "import Vita.C04.Lang",
+         "import Vita.C04.IO",
          "import Vita.C04.Sites",
          "namespace Vita.C04.Gen",
-         "open Vita.C04.Lang Vita.C04.Sites",
+         "open Vita.C04.Lang Vita.C04.IO Vita.C04.Sites",
          ""]
     titles = {"keyEq": "hash_t::operator==", "index": "cache::index", "ctorMask": "cache::cache(bits): k_mask(…)",
               "ctorTable": "cache::cache(bits): table_(…)", "ctorSeal": "cache::cache(bits): seal_(…)",
               "find": "cache::find", "insert": "cache::insert", "clear": "cache::clear()",
-              "clearKey": "cache::clear(const hash_t &)"}
-    for k in ("keyEq", "index", "ctorMask", "ctorTable", "ctorSeal", "find", "insert", "clear", "clearKey"):
+              "clearKey": "cache::clear(const hash_t &)", "save": "cache::save(std::ostream &) const",
+              "load": "cache::load(std::istream &)"}
+    for k in ("keyEq", "index", "ctorMask", "ctorTable", "ctorSeal", "find", "insert", "clear", "clearKey", "save", "load"):
         t, names, ty = res["cache"][k]
         L.append("/-- %s   (locals: %s) -/" % (titles[k], names))
         L.append("def %s : %s :=\n  %s" % (k, ty, t))
